@@ -1,12 +1,12 @@
 #!/bin/sh
 # tools/collect.sh <suffix> <ids...>: copy finished sub-agent outputs /tmp/wt/<ID><suffix>-out into seeded/<ID>_<suffix> and run the checks
 cd "$(dirname "$0")/.." || exit 2
-suf=$1; shift
+suf=$1; shift; WAVE=${WAVE:-"2 (given the property text, a scratch worktree and a note which site an earlier attempt had already changed)"}
 for id in "$@"; do
   src=/tmp/wt/${id}${suf}-out
   [ -f $src/patch.diff ] && [ -f $src/demo.py ] || { echo "$id: not ready"; continue; }
   d=seeded/${id}_${suf}; mkdir -p $d
   cp $src/patch.diff $src/demo.py $d/; cp $src/notes.md $d/ 2>/dev/null
-  [ -f $d/meta.json ] || echo "{\"property\": \"$id\", \"run_checks\": [\"$id\"], \"origin\": \"independent sub-agent, wave 2 (given the property text, a scratch worktree and a note which site an earlier attempt had already changed)\"}" > $d/meta.json
+  [ -f $d/meta.json ] || echo "{\"property\": \"$id\", \"run_checks\": [\"$id\"], \"origin\": \"independent sub-agent, wave '"$WAVE"'\"}" > $d/meta.json
   /venv/bin/python tools/seeded.py $d 2>&1 | grep -E "^(suite|demo|RESULT|C[0-9]+ exit|PATCH)" | cut -c1-420
 done
